@@ -66,6 +66,12 @@ func (p Package) uniqueName(lvl int) string {
 	return name
 }
 
+// depth returns the number of path components which can contribute to
+// the unique name.
+func (p Package) depth() int {
+	return strings.Count(p.Path(), "/") + 1
+}
+
 // stripVendorPath strips the vendor dir prefix from a package path.
 // For example we might encounter an absolute path like
 // github.com/foo/bar/vendor/github.com/pkg/errors which is resolved
